@@ -38,4 +38,9 @@ def obligations(tier):
                       unwind=240, timeout=1800, family="ed25519-multipart", replay="model", tier="quick" if (ml, sp) == (17, 5) else "thorough",
                       desc="multi-part Ed25519ph API == pre-hashed signing / verification of SHA-512(m); generic crypto_sign_* names; sk_to_seed / sk_to_pk",
                       bounds="all seed/message/signature/key bytes; (mlen, split) enumerated"))
+    # the canonical-S and canonical-point rules of verification rest on the real predicates of ed25519_ref10.c, which the
+    # G-obligations above idealise: S < L and y < p on all 256 input bits (the C07 K-obligation) belong to this check too
+    obs.append(Ob("canonical-predicates", "C07/predicates.c", units=["crypto_core/ed25519/ref10/ed25519_ref10.c", "sodium/utils.c"],
+                  stubs=["libc.c", "misuse.c"], unwind=40, timeout=900, nochecks=True, family="canonical-predicates",
+                  desc="sc25519_is_canonical <=> s < L ; ge25519_is_canonical <=> y < p (what crypto_sign_verify's canonical-S / canonical-R,A checks call)", bounds="all 256 input bits"))
     return obs
